@@ -62,10 +62,10 @@ DEFAULT_SOLS = [(ADDR_A, ADDR_B, [], [])]
 
 
 def case(ops=None, mode="ops", raw=None, pc=0, stack=(), mem=(), pm=(), rep=(), index=0, sols=None,
-         entries=(), eds=(), secps=(), cost=(1, ()), limit=U64_MAX, maxb=4096):
+         entries=(), eds=(), secps=(), cost=(1, ()), limit=U64_MAX, maxb=4096, halt=False):
     sols = DEFAULT_SOLS if sols is None else sols
     bs = raw if raw is not None else prog_bytes(ops)
-    parts = ["prog", mode, hx(bs), str(pc), L(list(stack)), L(list(mem)), LL([list(m) for m in pm]),
+    parts = ["prog", mode, hx(bs), ("h" if halt else "") + str(pc), L(list(stack)), L(list(mem)), LL([list(m) for m in pm]),
              f"{len(rep)}" + "".join(f" {u} {n} {loc}" for u, n, loc in rep),
              str(index), f"{len(sols)}" + "".join(" " + sol_tok(s) for s in sols),
              f"{len(entries)}" + "".join(" " + entry_tok(e) for e in entries),
@@ -386,6 +386,15 @@ def op1_cases(rng, tier):
     for bad in ([1, -1, 2], [5, 9, 3], [1, 1, 7, 3], [-1], [I64_MAX], [1, 2, I64_MIN, 3], [0, 1, 1, 3]):
         add(op("EQST"), enc_set([[1]]) + bad)
         add(op("EQST"), bad + enc_set([[1]]))
+    # large sets (above any small-set fast path: 16, 32, 64, 128, 256 elements) with and without repeated elements on
+    # either side, equal / one element missing but another repeated (same count)
+    for k in (15, 16, 17, 33, 65, 127, 128, 129, 130, 257):
+        base = [[i] for i in range(k)]
+        variants = [(base, base), (base, list(reversed(base))), (base, base + [[0]]), (base + [[0]], base),
+                    (base, base[:-1] + [[0]]), (base[:-1] + [[0]], base), (base + [[3], [3]], base + [[4]]), (base, base[1:])]
+        for l_, r_ in variants:
+            if len(enc_set(l_)) + len(enc_set(r_)) + 1 <= STACK_LIMIT:
+                add(op("EQST"), [4] + enc_set(l_) + enc_set(r_))
     add(op("EQST"), [])
     add(op("EQST"), [0])
     add(op("EQST"), [0, 0])
@@ -482,6 +491,15 @@ def c07_cases(rng, tier):
                 for lim in (U64_MAX, U64_MAX - 1, 1 << 63):
                     table = ((push_oc, push_c), (com_oc, com_c), (come_oc, 0), (pop_oc, per))
                     cases.append(case([P(breadth), op("COM"), op("POP"), op("COME")], cost=(0, table), limit=lim, sols=RICH_SOLS))
+    # a Vm whose public `halt` flag is already set when execution starts: it stops after the first Compute, and the children's
+    # gas still counts (and is still checked against the limit)
+    for breadth in (1, 2, 3):
+        prog = [P(7), op("POP"), P(breadth), op("COM"), P(1), op("POP"), op("COME"), P(9), op("POP")]
+        for c in (1, 5):
+            tot = c * (4 + breadth * 3)
+            for lim in sorted({c * 4, tot - 1, tot, tot + 1, U64_MAX}):
+                cases.append(case(prog, cost=(c, ()), limit=lim, sols=RICH_SOLS, halt=True))
+    cases.append(case(line, halt=True))
     # loops: backward jumps and repeats under small limits
     loop = [P(0), P(1), op("ADD"), op("DUP"), P(5), op("LT"), P(-7), op("SWAP"), op("JMPIF")]
     rep = [P(4), P(1), op("REP"), op("REPC"), op("POP"), op("REPE")]
@@ -665,6 +683,11 @@ def c10_cases(rng, tier):
     # parent stack at the limit: the child needs one more word for its index
     for sl in (STACK_LIMIT - 2, STACK_LIMIT - 1, STACK_LIMIT):
         cases.append(case([op("COM"), op("POP"), op("COME")], stack=[1] * (sl - 1) + [2], sols=RICH_SOLS))
+    # the parent's own halt flag set before the Compute / set by a halting child: the parent stops right after the Compute
+    for b in (1, 2, 3):
+        for body in ([op("POP"), op("COME")], [P(1), op("ALOC"), op("STO"), op("COME")], [op("HLT")]):
+            cases.append(case([P(b), op("COM")] + body + [P(5)], sols=RICH_SOLS, halt=True))
+            cases.append(case([P(b), op("COM")] + body + [P(b), op("COM")] + body + [P(5)], sols=RICH_SOLS, halt=True))
     # larger breadths
     for b in (50, 1000, 4097):
         cases.append(case([P(b), op("COM"), P(1), op("ALOC"), op("STO"), op("COME")], sols=RICH_SOLS, limit=U64_MAX, maxb=5000))
@@ -726,6 +749,15 @@ def c11_cases(rng, tier):
             for n1, n2 in ((3, 2), (2, 2), (2, 3), (3, 1), (1, 3), (2, 0)):
                 prog = args(s1, key, n1, 0) + [op(s1)] + args(s1, key, n2, 20) + [op(s1)]
                 c = case(prog, stack=[33], mem=[-5] * 44, sols=RICH_SOLS, entries=ents, index=0)
+                cases.append(c)
+                oracles.append(as_oracle(c, "o_state"))
+    # long keys (nothing limits the key of a read to the length a mutation key may have)
+    for s_ in ("KRNG", "PKRNG", "KREX", "PKREX"):
+        for kl in (999, 1000, 1001, 2048, 4000):
+            key = [(i * 7) % 50 for i in range(kl)]
+            st = (ext if s_.endswith("EX") else []) + key + [kl, 1, 0]
+            if len(st) <= STACK_LIMIT:
+                c = case([op(s_)], stack=st, mem=[-5] * 8, sols=RICH_SOLS, entries=ents, index=0)
                 cases.append(c)
                 oracles.append(as_oracle(c, "o_state"))
     # the other solution's contract (index 1)
